@@ -889,6 +889,18 @@ def h_roundtrip(ctx, counts, menu, bases=(0, 1, 2, "top")):
         # the other chip has another router copy: reading the wrong chip
         # shows
         _prep_chip(ctx, machine, mc, CHIPS[1], None)
+        if ctx.choose(2):
+            # the same controller has dumped the OTHER chip's router before
+            # (whatever it learnt there -- addresses, sizes -- is that
+            # chip's, not this one's)
+            try:
+                other = mc.get_routing_table_entries(*CHIPS[1])
+                ctx.observe("other chip first", len(other))
+                ctx.witness("other-chip-first")
+            except Exception as e:
+                ctx.observe(type(e).__name__)
+                ctx.prove(False, "readback-unexpected-exception", repr(e))
+                return
         try:
             mc.load_routing_table_entries(entries, chip[0], chip[1], app_id)
             loaded = True
@@ -1211,8 +1223,9 @@ def _units(tier, seed):
     us.append(Unit("load and read back", h_roundtrip,
                    dict(counts=(0, 2) if q else (0, 1, 2, 3), menu=m,
                         bases=(0, 1, "top") if q else (0, 1, 2, "top")),
-                   split=2, witnesses=("loaded-and-read",
-                                       "refused-and-read")))
+                   split=3, witnesses=("loaded-and-read",
+                                       "refused-and-read",
+                                       "other-chip-first")))
     us.append(Unit("unpack entry, one symbolic route bit", h_unpack,
                    dict(bits=1, menu=m), split=3,
                    witnesses=("used", "unused")))
